@@ -108,6 +108,13 @@ impl Shapes2 for Imp {
     fn res_unit(&self, x: Result<(), u8>) -> Result<(), u8> { let r = self.r(26); match x { Ok(()) => { r.variant = 0 } Err(e) => { r.variant = 1; r.payload = e as u64 } } if r.out_variant == 0 { Ok(()) } else { Err(r.out_payload as u8) } }
 }
 
+/// builtin external trait with a string argument and an integer-coded result
+impl core::fmt::Write for Imp {
+    fn write_str(&mut self, s: &str) -> core::fmt::Result { let r = self.r(40); r.ptr = s.as_ptr() as usize; r.len = s.len(); if r.idx < s.len() { r.elem = s.as_bytes()[r.idx] as u64; } if r.out_variant == 0 { Ok(()) } else { Err(core::fmt::Error) } }
+}
+/// builtin external trait handing out a mutable reference
+impl AsMut<u64> for Imp { fn as_mut(&mut self) -> &mut u64 { let _ = self.r(41); &mut self.cell } }
+
 #[cfg(kani)]
 mod verif;
 
